@@ -98,7 +98,7 @@ pub fn opts_for(scn: &Scn, prefix: &[u8], expect_n: &[u8], trace: bool, hash: bo
         trace,
         hash,
         solo: scn.solo,
-        spurious_at: None,
+        spurious: scn.spurious,
     }
 }
 
